@@ -393,6 +393,75 @@ def gen_object(rng, malformed=False, archname=None, want_exec=None):
     return obj, typ
 
 
+def fixed_objects():
+    """deterministic shapes every seed exercises: list of (label, obj, type)"""
+    from ppci.binutils.objectfile import Section, Image, RelocationEntry
+
+    def sec(name, addr, align, data):
+        s = Section(name)
+        s.address, s.alignment = addr, align
+        s.add_data(bytes(data))
+        return s
+    out = []
+    for arch in ('x86_64', 'arm', 'microblaze'):
+        # non page-aligned image whose first section is empty, second image, symbol at the very end, absolute symbol
+        o = mk_obj(arch)
+        a, b, c, d = sec('code', 0x40010, 4, b''), sec('rom', 0x40010, 1, range(1, 8)), \
+            sec('data', 0x20000804, 4, [9, 8, 7]), sec('bss', 0, 8, b'')
+        for s in (a, b, c, d):
+            o.add_section(s)
+        i1, i2 = Image('code', 0x40010), Image('ram', 0x20000800)
+        i1.add_section(a)
+        i1.add_section(b)
+        i2.add_section(c)
+        o.add_image(i1)
+        o.add_image(i2)
+        o.add_symbol(0, 'end_of_rom', 'global', 7, 'rom', 'object', 0)
+        o.add_symbol(1, 'abs_sym', 'global', 77, None, 'object', 0)
+        o.add_symbol(2, 'l', 'local', 3, 'data', 'func', 0)
+        o.entry_symbol_id = 0
+        out.append(('fix-two-images-' + arch, o, 'executable'))
+        out.append(('fix-two-images-as-rel-' + arch, o, 'relocatable'))
+        # image whose sections overlap (same address): Image.data raises ValueError after the headers were generated
+        o = mk_obj(arch)
+        a, b = sec('data', 0, 3, range(16)), sec('data', 0, 4, [1, 2])
+        o.add_section(a)
+        o.add_section(b)
+        im = Image('code', 0)
+        im.add_section(a)
+        im.add_section(b)
+        o.add_image(im)
+        o.add_symbol(0, 'bar', 'local', 77, None, 'func', 100)
+        out.append(('fixM-overlap-' + arch, o, 'executable'))
+        # image sections listed by decreasing address
+        o = mk_obj(arch)
+        a, b = sec('code', 0x1000, 4, range(4)), sec('data', 0x1010, 4, range(3))
+        o.add_section(a)
+        o.add_section(b)
+        im = Image('flash', 0x1000)
+        im.add_section(b)
+        im.add_section(a)
+        o.add_image(im)
+        out.append(('fixM-decreasing-' + arch, o, 'executable'))
+        # only empty sections, image at a non aligned address, no symbols
+        o = mk_obj(arch)
+        a = sec('code', 0x10004, 16, b'')
+        o.add_section(a)
+        im = Image('code', 0x10000 + 4)
+        im.add_section(a)
+        o.add_image(im)
+        out.append(('fix-empty-' + arch, o, 'executable'))
+    o = mk_obj('x86_64')
+    a = sec('code', 0, 4, range(12))
+    o.add_section(a)
+    o.add_symbol(0, 'end', 'local', 12, 'code', 'object', 0)
+    o.add_symbol(1, 'ext', 'global', None, None, 'func', 0)
+    o.relocations.append(RelocationEntry('rel32', 1, 'code', 8, -4))
+    o.relocations.append(RelocationEntry('abs64', 0, 'code', 0, 0))
+    out.append(('fix-reloc-at-end', o, 'relocatable'))
+    return out
+
+
 ASM_SRC = {
     'x86_64': """
 section code
@@ -521,6 +590,8 @@ def correspondence(ctx, thorough):
     jobs = []          # (label, obj, typ)
     for lab, o, t in real_objects(ctx, thorough):
         jobs.append((lab, o, t))
+    for lab, o, t in fixed_objects():
+        jobs.append((lab, o, t))
     n_prog = 260 if thorough else 60
     for i in range(n_prog):
         o, t = gen_object(rng, malformed=(i % 4 == 3))
@@ -533,6 +604,9 @@ def correspondence(ctx, thorough):
     for lab, o, t in jobs:
         if not representable(o) or not isinstance(t, str):
             dist['unrepresentable'] = dist.get('unrepresentable', 0) + 1
+            continue
+        if t == 'shared':          # ET_DYN is not modelled (the model answers 'not modelled'); nothing to compare
+            dist['not-modelled-ET_DYN'] = dist.get('not-modelled-ET_DYN', 0) + 1
             continue
         term = 'sparse (write_elf (%s) %s)' % (obj_term(o), coq_str(t))
         if term in seen:
@@ -547,7 +621,7 @@ def correspondence(ctx, thorough):
             nontriv += 1
         # reader validation: the Coq gABI reader, run on the model's bytes of this very object, must accept
         # and recover it (well-formed objects only; big-endian only once the fields are big-endian)
-        if isinstance(r, OkV) and not lab.startswith('genM') and (be_ok or o.arch.name != 'microblaze'):
+        if isinstance(r, OkV) and not lab.startswith(('genM', 'fixM')) and (be_ok or o.arch.name != 'microblaze'):
             rcases.append(('recovered_code (%s) %s' % (obj_term(o), coq_str(t)), 3))
             rrecs.append((lab, t, o))
     ctx.cov['stages']['correspondence_distribution'] = dist
@@ -855,7 +929,7 @@ def classify_failure(obj, typ, exc):
 
 def search_objects(ctx, deep):
     rng = ctx.rng
-    jobs = [(lab, o, t) for lab, o, t in real_objects(ctx, deep)]
+    jobs = [(lab, o, t) for lab, o, t in real_objects(ctx, deep)] + fixed_objects()
     n = 400 if deep else 70
     for i in range(n):
         o, t = gen_object(rng, malformed=False)
